@@ -95,6 +95,9 @@ var plans = []planT{
 	{o: []string{"garbage", "err"}, c: []string{"clean", "clean"}},
 	{o: []string{"http-404"}, c: []string{"delta-lists"}},
 	{c: []string{"delta-ok", "clean"}},
+	{o: []string{"http-500", "http-204"}, c: []string{"http-404", "lists"}},
+	{o: []string{"st-trylater", "oversize"}, c: []string{"garbage"}},
+	{o: []string{"body-err", "good-delegate"}, c: []string{"body-err", "truncated"}},
 }
 
 func mkScenario(length int, assign []int, entry, route, cache string) sims.Scenario {
@@ -457,6 +460,12 @@ func afterCall(rec *Record, env *sims.Env) {
 	}
 	if env.Fetcher != nil && env.Fetcher.Open() != 0 {
 		rec.Sig, rec.What = "fetch-left-open", "a Fetch entered during the call had not exited when it returned"
+		return
+	}
+	// a response body nobody closed pins its connection and the transport's two
+	// goroutines for as long as the client lives
+	if n := env.Net.OpenBodies(); n != 0 {
+		rec.Sig, rec.What = "response-body-left-open", fmt.Sprintf("%d response bodies handed to the call were never closed", n)
 	}
 }
 
